@@ -49,7 +49,7 @@ class Run:
     __slots__ = ("rc", "out", "err", "files", "dep", "cls", "code")
 
 
-def run_hawk(ctx, hawk, src_text, inp, tag):
+def run_hawk(ctx, hawk, src_text, inp, tag, tmo=10):
     """run `hawk -d dep -f src in.txt` in a fresh directory; returns Run (dep = deparsed text or None)"""
     d = os.path.join(ctx.scratch, "r_%s_%d" % (tag, next(_RUN_SEQ)))
     shutil.rmtree(d, ignore_errors=True)
@@ -58,9 +58,9 @@ def run_hawk(ctx, hawk, src_text, inp, tag):
         f.write(src_text)
     with open(os.path.join(d, "in.txt"), "w") as f:
         f.write(inp)
-    rc, out, err = C.sh(["timeout", "-s", "KILL", "6", hawk, "-d", "dep.out", "-f", "p.hawk", "in.txt"],
-                        timeout=20, cwd=d, env=C.ASAN_ENV)
-    if rc in (126, 127) or not os.path.exists(hawk):
+    rc, out, err = C.sh(["timeout", "-s", "KILL", str(tmo), hawk, "-d", "dep.out", "-f", "p.hawk", "in.txt"],
+                        timeout=tmo + 20, cwd=d, env=C.ASAN_ENV)
+    if not os.path.exists(hawk) or (rc in (126, 127) and b"timeout: " in err):   # (a hawk program may itself exit with 126/127)
         raise RuntimeError("the hawk binary %s cannot be executed (rc=%s): %s" % (hawk, rc, err.decode(errors="replace")[:200]))
     r = Run()
     r.rc = rc
@@ -126,6 +126,10 @@ NONFINITE_RE = re.compile(r"(?<![\w.\"'$@\\])-?(inf|nan)\b(?![\w(\[\"])")
 
 def differential(ctx, hawk, prog, inputs=INPUTS, tag="x"):
     v = differential0(ctx, hawk, prog, inputs, tag)
+    if not v.ok and v.kind != "sanitizer-src" and "TIMEOUT" in (v.what + v.detail):
+        # many hawk processes run in parallel (and other checks may load the machine): a time-out is only believed
+        # when it happens again with a six times longer budget
+        v = differential0(ctx, hawk, prog, inputs, tag, tmo=60)
     if not v.ok and v.sig is None and v.d1 is not None and v.kind in ("behaviour", "d1-rejected", "unstable", "d2-rejected"):
         # narrow class: a folded floating-point constant that is infinite or NaN is written as the bare word inf / nan / -nan
         if NONFINITE_RE.search(v.d1) and not NONFINITE_RE.search(prog):
@@ -133,9 +137,9 @@ def differential(ctx, hawk, prog, inputs=INPUTS, tag="x"):
     return v
 
 
-def differential0(ctx, hawk, prog, inputs=INPUTS, tag="x"):
+def differential0(ctx, hawk, prog, inputs=INPUTS, tag="x", tmo=10):
     v = Verdict()
-    runs0 = [run_hawk(ctx, hawk, prog, inp, "%s_0_%d" % (tag, i)) for i, inp in enumerate(inputs)]
+    runs0 = [run_hawk(ctx, hawk, prog, inp, "%s_0_%d" % (tag, i), tmo) for i, inp in enumerate(inputs)]
     r0 = runs0[0]
     for r in runs0:
         if r.cls in ("ASAN", "UBSAN", "TIMEOUT(hang)") or r.cls.startswith("SIGNAL"):
@@ -146,7 +150,7 @@ def differential0(ctx, hawk, prog, inputs=INPUTS, tag="x"):
         v.detail = describe(r0)
         return v
     v.d1 = r0.dep
-    runs1 = [run_hawk(ctx, hawk, v.d1, inp, "%s_1_%d" % (tag, i)) for i, inp in enumerate(inputs)]
+    runs1 = [run_hawk(ctx, hawk, v.d1, inp, "%s_1_%d" % (tag, i), tmo) for i, inp in enumerate(inputs)]
     r1 = runs1[0]
     if r1.dep is None:
         v.ok = False; v.kind = "d1-rejected"
@@ -162,7 +166,7 @@ def differential0(ctx, hawk, prog, inputs=INPUTS, tag="x"):
             v.what = "deparsed program behaves differently from the original on input #%d" % i
             v.detail = "== input ==\n%s== original ==\n%s\n== deparsed ==\n%s" % (inputs[i], describe(a), describe(b))
             return v
-    r2 = run_hawk(ctx, hawk, v.d2, inputs[-1], "%s_2" % tag)
+    r2 = run_hawk(ctx, hawk, v.d2, inputs[-1], "%s_2" % tag, tmo)
     if r2.dep is None:
         v.ok = False; v.kind = "d2-rejected"
         v.what = "the deparse of the deparse is rejected by the parser (errcode %s)" % r2.code
@@ -224,22 +228,22 @@ class Gen:
         self.T = T
         # binary operators by ladder level, loosest first: (spelling, level index, opcode)
         self.binops = []
-        spell = {}
+        spell = {}     # token -> every spelling the symbol lexer maps to it (TOK_EXP: `^` and `**`)
         for s, t in T["symbols"]:
-            spell.setdefault(t, s)
-        spell["TOK_IN"] = "in"
+            spell.setdefault(t, []).append(s)
+        spell["TOK_IN"] = ["in"]
         lvl = 0
         for lv in T["ladder"]:
             if lv["kind"] == "binary":
                 for t, o in lv["map"]:
-                    self.binops.append((spell[t], lvl, o))
+                    for sp in spell[t]:
+                        self.binops.append((sp, lvl, o))
             elif lv["fn"] == "parse_in":
                 self.binops.append(("in", lvl, "HAWK_BINOP_IN"))
             elif lv["fn"] == "parse_concat":
                 self.binops.append((" ", lvl, "HAWK_BINOP_CONCAT"))
                 self.binops.append(("%%", lvl, "HAWK_BINOP_CONCAT"))
             lvl += 1
-        self.binops.append(("^", [l for s, l, o in self.binops if o == "HAWK_BINOP_EXP"][0], "HAWK_BINOP_EXP"))
         self.assops = [s for s in T["assop_str"]] + ["^="]
         self.unops = list(T["unrop_str"])
 
@@ -257,7 +261,19 @@ class Gen:
     def lvalue(self):
         return self.rng.choice(["a", "b", "c", "m[1]", "m[a]", "m[1,2]", "$2", "$(1)", "q", "m[b - 2]"])
 
+    NUM_RE = re.compile(r"0[xX][0-9a-fA-F]+|0[bB][01]+|\d+\.\d*(?:[eE][-+]?\d+)?|\.\d+(?:[eE][-+]?\d+)?|\d+(?:[eE][-+]?\d+)?")
+
+    def is_const(self, e):
+        """source made of numeric literals, operators and parentheses only (the parser may fold it)"""
+        rest = self.NUM_RE.sub("", e)
+        return rest != e and re.fullmatch(r"[\s()+\-*/%\\!~^]*", rest) is not None
+
     def bin(self, op, l, r):
+        if op == "/" and self.is_const(l) and self.is_const(r):
+            # the quantifier of C17 is about folded constants with exactly representable values: a constant quotient
+            # (.5 / 7) is folded into a value that no 17-digit literal denotes exactly (the reader takes 18 digits at most),
+            # and an integer division or comparison downstream turns the last-digit difference into a different result
+            r = "c"
         if op == " ":
             return "%s %s" % (l, r)
         return "%s %s %s" % (l, op, r)
@@ -352,6 +368,7 @@ class Gen:
             for u2 in self.unops:
                 out += ["%s %sa" % (u, u2), "%s(%sa)" % (u, u2), "%s %s2" % (u, u2), "%s(%s 2.5)" % (u, u2)]
             out += ["%s%s" % (u, i) for i in incs if not (u in "+-" and i[0] == u)] + ["%s (%s)" % (u, i) for i in incs]
+            out += ["%s %s" % (u, i) for i in incs] + ["%s %s %s" % (u, u, i) for i in incs] + ["b * %s %s" % (u, i) for i in incs]
         for i in incs:
             for o, _, _ in self.binops:
                 if o == "in":
@@ -366,6 +383,41 @@ class Gen:
                 "a (~b)", "a \" \" -1", "1 \" \" -1", "a -1", "a - 1", "a (b)", "a(b)" if False else "a (b + 1)", "s (/x/)", "(/x/) s", "(s ~ /x/) (/7/)", "a (1, 2) in m" if False else "a ((1, 2) in m)",
                 "a - (-1)", "a + (-1)", "a * (-1)", "a % (-2)", "(-1) * a", "(-1) a", "(-1) (-1)", "(1 - 2) \" \" (1 - 2)", "-1 \" \" -1", "$(-1 + 2)", "$(1 - 0)", "m[-1 + 2]", "m[1 - 2]",
                 "-0", "-(0)", "- 0.0", "-(1 - 1)", "(1 - 1) * -1", "1 / -4", "a / (1 / 4)", "(0 - 0.5) ** 2", "(0 - 0.5) ** b"]
+        return out
+
+    def fam_expchain(self):
+        """unparenthesised chains of the exponentiation operator (3 and 4 operands), with prefix operators on every
+        position, both spellings, ++/--, and the neighbouring ladder levels; the two associativities give different values
+        (a=5 b=3 c=2: a ** b ** c is 1953125 or 15625; 2 ** 3 ** 2 is 512 or 64)"""
+        exps = [s for s, l, o in self.binops if o == "HAWK_BINOP_EXP"]
+        out = []
+        pre = ["", "-", "+", "!", "~", "- "]
+        for e1, e2 in itertools.product(exps, repeat=2):
+            for p1, p2, p3 in itertools.product(pre, repeat=3):
+                for A, B, Cc in (("a", "b", "c"), ("2", "3", "2")):
+                    out.append("%s%s %s %s%s %s %s%s" % (p1, A, e1, p2, B, e2, p3, Cc))
+            out += ["(a %s b) %s c" % (e1, e2), "a %s (b %s c)" % (e1, e2), "(2 %s 3) %s 2" % (e1, e2), "2 %s (3 %s 2)" % (e1, e2),
+                    "a++ %s b %s c" % (e1, e2), "a %s b++ %s c" % (e1, e2), "a %s b %s c++" % (e1, e2), "++a %s b %s c" % (e1, e2),
+                    "a %s --b %s c" % (e1, e2), "a %s b %s --c" % (e1, e2), "a %s - --b %s c" % (e1, e2), "- --a %s b %s c" % (e1, e2),
+                    "$c %s b %s c" % (e1, e2), "c %s $c %s c" % (e1, e2), "m[1] %s b %s m[5]" % (e1, e2), "length(s) %s b %s c" % (e1, e2)]
+        e = exps[0]
+        for p1, p2, p3, p4 in itertools.product(["", "-"], repeat=4):
+            out.append("%sb %s %sc %s %sc %s %sc" % (p1, e, p2, e, p3, e, p4))
+            out.append("%s3 %s %s2 %s %s2 %s %s2" % (p1, e, p2, e, p3, e, p4))
+        out += ["(b %s c) %s c %s c" % (e, e, e), "b %s (c %s c) %s c" % (e, e, e), "b %s c %s (c %s c)" % (e, e, e), "(b %s c %s c) %s c" % (e, e, e),
+                "((b %s c) %s c) %s c" % (e, e, e), "b %s (c %s c %s c)" % (e, e, e)]
+        # neighbouring levels: multiplicative and unary above, unary_exp / increment below
+        for o, _, _ in self.binops:
+            if o == "in":
+                out += ["a %s b %s c in m" % (e, e), "(a %s b %s c) in m" % (e, e)]
+                continue
+            out += ["a %s b %s c %s 7" % (e, e, o), "7 %s a %s b %s c" % (o, e, e), "a %s b %s c %s a %s b %s c" % (e, e, o, e, e),
+                    "-a %s b %s c %s 7" % (e, e, o), "7 %s -a %s b %s c" % (o, e, e), "a %s -b %s c %s 7" % (e, e, o),
+                    "a %s (b %s c) %s 2" % (e, o, e), "(a %s b) %s c %s 2" % (o, e, e), "a %s b %s (c %s 2)" % (e, e, o)]
+        out += ["q = a %s b %s c" % (e, e), "a %s= b %s c" % (e, e), "a ^= b ^ c ^ c", "c **= c ** c ** c", "a %s b %s c ? 1 : 2" % (e, e),
+                "c ? a %s b %s c : 0" % (e, e), "!a %s b %s c" % (e, e), "-(a %s b) %s c" % (e, e), "(-a) %s b %s c" % (e, e), "(-a %s b) %s c" % (e, e),
+                "-a %s (-b) %s (-c)" % (e, e), "2 %s -1 %s 2" % (e, e), "2 %s -(1) %s 2" % (e, e), "(1 - 3) %s 2 %s 2" % (e, e), "2 %s (1 - 3) %s 2" % (e, e),
+                "2 %s 2 %s (1 - 3)" % (e, e), "f1(a %s b %s c)" % (e, e), "m[c %s c %s c]" % (e, e), "$(c %s 1 %s c)" % (e, e), "a %s b %s c \" \" a %s b" % (e, e, e)]
         return out
 
     def fam_ternary(self):
@@ -562,8 +614,15 @@ class ProgGen:
         rng = self.rng
         self.n = 0
         out = []
-        if rng.random() < 0.4:
-            out.append("@global g1, g2;")
+        gdecl = None
+        if rng.random() < 0.45:
+            # declared globals; one of them (at a random position, often the FIRST: the boundary between the built-in and
+            # the declared globals) is a map that is used subscripted AND whole, so that every site that prints a global
+            # (declaration, plain use, subscripted use) must agree on its __g<N> name
+            names = ["g1", "g2"]
+            names.insert(rng.choice([0, 0, 1, 2]), "gm")
+            gdecl = "@global %s;" % ", ".join(names)
+            out.append(gdecl)
         out.append("function f1(p0) { return p0 + 1 }")
         out.append("function f2(p0, p1) { return p0 \"-\" p1 }")
         out.append("function f3() { return \"f3\" }")
@@ -571,8 +630,14 @@ class ProgGen:
             out.append("function h1(p0, p1,   l0) %s" % self.block(2, dict(func=True)))
         if rng.random() < 0.3:
             out.append("function h2(&r0, ...) { r0 = @argc; if (@argc > 1) return @argv[1]; return @argv[0] %% @argc }")
-        setup = "BEGIN { " + " ".join(s + ";" for s in SETUP) + (" g1 = 4; g2 = \"G\";" if out[0].startswith("@global") else "") + " }"
+        setup = "BEGIN { " + " ".join(s + ";" for s in SETUP) + (" g1 = 4; g2 = \"G\";" if gdecl else "") + " }"
         out.append(setup)
+        if gdecl:
+            out.append('BEGIN { gm[1] = 10; gm["x"] = 20; gm[2] += g1; gn = 0; for (gk in gm) gn += gm[gk]; '
+                       'print length(gm), gn, (1 in gm), ("y" in gm), gm[1] g2, hawk::typename(gm); delete gm[2]; print length(gm); }')
+            out.append("function hg(k) { gm[k] = length(gm); return gm[k] g1 }")
+            out.append("BEGIN { print hg(7), hg(\"x\"), length(gm); %s }" % rng.choice(
+                ["gm[g1] = g2", "if (g1 in gm) print gm[g1]", "for (gk in gm) if (gk == 7) delete gm[gk]", "gm[1]++; gm[1] += gm[\"x\"]", "@reset gm; gm[3] = 3"]))
         for _ in range(rng.randrange(1, 3)):
             out.append("BEGIN %s" % self.block(3, {}))
         if any(o.startswith("function h1") for o in out):
@@ -589,15 +654,27 @@ class ProgGen:
             else:
                 pat = rng.choice(["/a/", "$1 == 1", "NR == 2", "!/x/", "NR == 1, NR == 2", "/a/, /x/", "NR > 1 ? 1 : 0", "(a = NR - 1)", "a = NR - 1", "NR % 2", "$1 ~ /^[a-z]$/", "length($0) > 1", "(NR, 1) in m" if False else "NR in m", "NR == 1 || NR == 3"])
                 out.append("%s %s" % (pat, self.block(2, rctx)))
-        for _ in range(rng.randrange(0, 2)):
-            out.append("END %s" % self.block(2, {}))
-        out.append("END { print a, b, c, q, NR; }")
+        # several END blocks, each with an observable effect (they run in order, after all records)
+        for i in range(rng.randrange(0, 3)):
+            b = self.block(2, {})
+            out.append("END { print \"end%d\", NR, q; q = q + 1; %s }" % (i, b))
+        out.append("END { print a, b, c, q, NR%s; }" % (", length(gm), gm[1]" if gdecl else ""))
+        if rng.random() < 0.3:
+            out.append("END { print \"last\", q; exit q %% 5 }")
         return "\n".join(out) + "\n"
 
 
 FUNCS = "function f1(p0) { return p0 + 1 }\nfunction f2(p0, p1) { return p0 \"-\" p1 }\nfunction f3() { return \"f3\" }"
 
 HAND_PROGRAMS = [
+    # declared globals: the first / a middle / the last one is a map used subscripted and whole, in rules and functions
+    '@global tab, cnt;\nfunction add(k) { tab[k]++; cnt++; return length(tab) }\nBEGIN { tab["a"] = 1; add("b"); add("a"); for (k in tab) s = s k tab[k]; print s, length(tab), cnt, ("a" in tab) }\n{ tab[$1]++ }\nEND { n = 0; for (k in tab) n += tab[k]; print n, length(tab), tab["a"], cnt; delete tab["a"]; print length(tab) }\n',
+    '@global cnt, tab, last;\nBEGIN { tab[1] = 5; cnt = length(tab); last = tab[1] cnt; print cnt, last; for (k in tab) print k, tab[k] }\n{ tab[NR] = $0; last = NR }\nEND { print length(tab), last, tab[last] }\n',
+    '@global x, y, tab;\nBEGIN { tab[1, 2] = 3; x = (1, 2) in tab; y = length(tab); print x, y; @reset tab; print length(tab); tab = 5; print tab }\n',
+    # several BEGIN / END blocks and pattern-less rules, all with effects; exit status from the last END
+    'BEGIN { print "b1" }\nBEGIN { print "b2"; n = 1 }\n{ n++ }\n{ print "r", NR, n }\nEND { print "e1", n; n += 10 }\nEND { print "e2", n; n += 10 }\nEND { print "e3", n; exit n % 7 }\n',
+    'END { print "e1", NR }\nEND { print "e2", NR; x = 1 }\n/a/ { print "A" }\nEND { print "e3", x }\n',
+    'BEGIN { r = - --a; print r, a; r = + ++a; print r, a; r = - - --a; print r, a; r = -(--a) + (+(++a)); print r, a; b = 3; print b * - --b, b * + ++b, - --b ** 2, 2 ** - --b }\n',
     # dangling else, nested blocks, declarations, all jump statements
     'BEGIN { a = 1; if (a) if (b) print 1; else print 2; if (a) { if (b) print 3 } else print 4; if (a) ; else print 5; }\n',
     'BEGIN { if (a) if (b) print 1; else print 2; else print 3; if (!a) { } else { print 6 } }\n',
@@ -749,6 +826,12 @@ def report(ctx, st, prog, v, label, shrunk_from=None):
     ctx.problem("impl", "%s [%s]" % (v.what, label[:120]), txt, found_input=True, sig=v.sig)
 
 
+def n_unknown(ctx):
+    """problems that are not instances of a known finding (those must not end the exploration early)"""
+    kf = dict(C.known_findings(ctx.id))
+    return len([p for p in ctx.problems if not (p["sig"] and p["sig"] in kf)])
+
+
 def shrink_items(ctx, hawk, items, decls, bad_kind):
     def fails(sub):
         vv = differential(ctx, hawk, batch_program(sub, decls), inputs=INPUTS[-1:], tag="s")
@@ -788,7 +871,7 @@ def check_batch(ctx, hawk, st, items, decls, label, model=True):
         report(ctx, st, sp, v2, "%s: %s" % (label, " | ".join(i.label for i in small)[:300]))
         # continue with the remaining items so that independent defects in the same batch are seen too
         rest = [i for i in items if i not in small]
-        if rest and len(rest) < len(items) and len(ctx.problems) < 12:
+        if rest and len(rest) < len(items) and n_unknown(ctx) < 12:
             check_batch(ctx, hawk, st, rest, decls, label, model)
         return False
     tally_nodes(st, v.d1)
@@ -895,7 +978,7 @@ def run(ctx):
         jobs.append(lambda s_, p=p, i=i: check_program(ctx, hawk, s_, p, "hand-written program #%d" % i))
     jobs.append(lambda s_: depth_probe(ctx, hawk, s_))
     # ---- systematic expression families (all tiers)
-    fams = [("operator pairs", g.fam_pairs()), ("unary/incdec in binary", g.fam_unary()), ("ternary nesting", g.fam_ternary()),
+    fams = [("operator pairs", g.fam_pairs()), ("unary/incdec in binary", g.fam_unary()), ("exponent chains", g.fam_expchain()), ("ternary nesting", g.fam_ternary()),
             ("assignment forms", g.fam_assign()), ("literals and folded constants", g.fam_literals()), ("primaries", g.fam_primary())]
     k = 0
     famsize = {}
@@ -916,7 +999,7 @@ def run(ctx):
     # ---- random expressions and programs until the budget is used
     pg = ProgGen(rng, g)
     nrand = 0
-    while (time.time() - ctx.t0 < t_budget or (nrand == 0 and time.time() - ctx.t0 < 75)) and len(ctx.problems) < 12:
+    while (time.time() - ctx.t0 < t_budget or (nrand == 0 and time.time() - ctx.t0 < 75)) and n_unknown(ctx) < 12:
         jobs = []
         for _ in range(8):
             items = []
